@@ -20,7 +20,12 @@ struct c15_task {
     };
 };
 // a listener that does nothing between signals except re-await the emitter
-extern "C" c15_task c15_listener(SIG::emitter e, c15_log *log) {
+#ifdef C15_NATIVE_REPLAY
+#define C15_CORO_LINKAGE                // g++ gives the actor / destroy clones of an extern "C" coroutine the same assembler name
+#else
+#define C15_CORO_LINKAGE extern "C"     // C linkage: short, stable name of the frame struct in the translation (S_c15_listener_Frame)
+#endif
+C15_CORO_LINKAGE c15_task c15_listener(SIG::emitter e, c15_log *log) {
     try {
         for (;;) {
             int &v = co_await e;
